@@ -17,6 +17,9 @@ func udpCases() []Case {
 	for _, u := range []string{"secret:equal", "secret:different", "secret:server-only", "secret:client-only", "secret:none"} {
 		out = append(out, Case{Members: []Member{{Carrier: "udp", Host: "127.0.0.1"}}, UDP: u})
 	}
+	for i := range secretPairs() {
+		out = append(out, Case{Members: []Member{{Carrier: "udp", Host: "127.0.0.1"}}, UDP: fmt.Sprintf("secret-pair:%d", i)})
+	}
 	for _, cert := range []string{"good", "untrusted", "wronghost", "expired"} {
 		for _, insecure := range []bool{false, true} {
 			for _, req := range []bool{false, true} {
@@ -24,6 +27,34 @@ func udpCases() []Case {
 					out = append(out, Case{Members: []Member{{Carrier: "udp", Cert: cert, Host: "127.0.0.1:0", Require: req}}, Insecure: insecure, ClientCert: cc, KnowsCA: true, UDP: "starttls"})
 				}
 			}
+		}
+	}
+	return out
+}
+
+type secretPair struct{ server, client, what string }
+
+// secretPairs: for server secrets of every length around the sizes a key derivation may
+// care about (AES key sizes 16/24/32, beyond them), every near miss of the client's secret.
+func secretPairs() []secretPair {
+	var out []secretPair
+	for _, l := range []int{1, 15, 16, 17, 24, 31, 32, 33, 48, 64} {
+		s := ""
+		for i := 0; i < l; i++ {
+			s += string(rune('a' + i%26))
+		}
+		out = append(out, secretPair{s, s, fmt.Sprintf("len%d|equal", l)})
+		out = append(out, secretPair{s, s[:l-1] + "X", fmt.Sprintf("len%d|last-differs", l)})
+		out = append(out, secretPair{s, s + "x", fmt.Sprintf("len%d|one-longer", l)})
+		if l > 1 {
+			out = append(out, secretPair{s, "X" + s[1:], fmt.Sprintf("len%d|first-differs", l)})
+			out = append(out, secretPair{s, s[:l-1], fmt.Sprintf("len%d|one-shorter", l)})
+		}
+		if l > 32 {
+			out = append(out, secretPair{s, s[:32], fmt.Sprintf("len%d|first-32", l)})
+		}
+		if l > 16 {
+			out = append(out, secretPair{s, s[:16], fmt.Sprintf("len%d|first-16", l)})
 		}
 	}
 	return out
@@ -50,6 +81,16 @@ func executeUDP(c Case) (kind, detail string) {
 	case "secret:client-only":
 		o.ClientSecret, want = "s3cret", false
 	case "secret:none":
+	case "starttls":
+	default:
+		var i int
+		if _, err := fmt.Sscanf(c.UDP, "secret-pair:%d", &i); err == nil && i < len(secretPairs()) {
+			p := secretPairs()[i]
+			o.ServerSecret, o.ClientSecret, want = p.server, p.client, p.server == p.client
+			c.UDP = "secret-pair|" + p.what
+		}
+	}
+	switch c.UDP {
 	case "starttls":
 		want = admits(m, c)
 	}
